@@ -132,7 +132,14 @@ StageEnd ==
     /\ ended' = (Ev.job :> Ev.outcome) @@ ended
     /\ failed' = IF Ev.outcome # "ok" /\ Ev.job \in DOMAIN exp
                  THEN failed \cup {exp[Ev.job].inst} ELSE failed
-    /\ UNCHANGED <<fvars, run, exp, faults, begun, killed, done0, phase, pcr, weakp, tainted, bad, jvars>>
+    \* C06: a call that depends on the failing one must not have been started (it could only
+    \* have started before this call finished)
+    /\ bad' = bad \o (IF Ev.outcome # "ok" /\ Ev.job \in DOMAIN exp
+                         /\ \E k \in begun : k \in DOMAIN exp /\ exp[Ev.job].inst \in Range(exp[k].deps)
+                      THEN <<Viol("C06", "a call failed after a call that depends on it had been started: "
+                                  \o (CHOOSE k \in begun : k \in DOMAIN exp /\ exp[Ev.job].inst \in Range(exp[k].deps)))>>
+                      ELSE <<>>)
+    /\ UNCHANGED <<fvars, run, exp, faults, begun, killed, done0, phase, pcr, weakp, tainted, jvars>>
 
 (* a job that was running when mrp exited dies with it *)
 StageKilled ==
